@@ -102,3 +102,83 @@ func paramRole(fn *ssa.Function, p *ssa.Parameter) string {
 	}
 	return p.Name()
 }
+
+// checkRecordedParams: the initialisers `name` of package rel (InitModel of the distance models)
+// take options next to their data. An option that the method stores into a field of its receiver
+// at all is stored on every path that returns without a rejection: a model object that is
+// initialised twice must not keep the option of the first call (gamma correction requested once,
+// plain distances later).
+func (c *Ctx) checkRecordedParams(rule, rel, name string) {
+	L := c.L
+	L.Rule(rule, "a scalar parameter of "+name+" that the method records in a receiver field is recorded before every return that is not a rejection of the arguments: re-initialising a model replaces its options")
+	n := 0
+	for _, fn := range c.srcFuncs(rel) {
+		if fn.Signature.Recv() == nil || fn.Name() != name || len(fn.Params) < 2 {
+			continue
+		}
+		recv := fn.Params[0]
+		for _, p := range fn.Params[1:] {
+			if !isSmallScalar(p.Type()) && p.Type().String() != "float64" {
+				continue
+			}
+			var stores []*ssa.Store
+			allInstrs(fn, func(in ssa.Instruction) {
+				st, ok := in.(*ssa.Store)
+				if !ok {
+					return
+				}
+				fa, ok := st.Addr.(*ssa.FieldAddr)
+				if !ok || !isRecvValue(fa.X, recv) {
+					return
+				}
+				if stripConv(st.Val) == ssa.Value(p) {
+					stores = append(stores, st)
+				}
+			})
+			if len(stores) == 0 {
+				continue
+			}
+			n++
+			// every return is reached through one of the stores, except returns that reject the
+			// arguments before anything is computed (an error return that no store precedes and that is
+			// controlled by a test on a parameter)
+			good := true
+			for _, b := range fn.Blocks {
+				ret, ok := b.Instrs[len(b.Instrs)-1].(*ssa.Return)
+				if !ok {
+					continue
+				}
+				covered := false
+				for _, st := range stores {
+					if st.Block() == b || st.Block().Dominates(b) {
+						covered = true
+					}
+				}
+				if covered {
+					continue
+				}
+				// a rejection: returns a non-nil error constant-built in this block
+				rej := false
+				for _, rv := range ret.Results {
+					if rv.Type().String() == "error" {
+						// an error built here (fmt.Errorf / errors.New): the arguments are refused
+						if call, isCall := rv.(*ssa.Call); isCall {
+							if g := call.Common().StaticCallee(); g != nil && g.Pkg != nil && (g.Pkg.Pkg.Path() == "fmt" || g.Pkg.Pkg.Path() == "errors") {
+								rej = true
+							}
+						}
+					}
+				}
+				if !rej {
+					good = false
+				}
+			}
+			L.Check(good, rule, c.P.FuncName(c.origFn(fn)), "parameter "+paramRole(fn, p), c.P.Pos(fn.Pos()),
+				"recorded before every return that does not reject the call",
+				"the option is recorded on some paths only: a model initialised a second time keeps the value of the first call on the others")
+		}
+	}
+	if n == 0 {
+		L.Unknown(rule, rel, name+" options", "-", "no initialiser that records a scalar parameter found")
+	}
+}
